@@ -11,10 +11,12 @@
     Model/Bins.v) and are run against the implementation.
     Specification side: Model/SamSpecArith.v (SAMv1 1.4, 4.2.1, 5.3; CSIv1).
 
-    A CIGAR is a list of uint32 words; [spec_decode c = Some sc] says every
-    word carries one of the nine standard operations or B (codes 0..9), which
-    is the property's quantifier; [sc] is the decoded list of (operation,
-    length). Go [int] is unbounded [Z]. *)
+    A CIGAR is a list of uint32 words; [spec_decode c = Some sc] decodes it
+    into (operation, length) pairs: the nine standard operations, B, and the
+    undefined codes 10..15 as an operation that consumes nothing. Every word
+    decodes ([every_cigar_decodes]), so the theorems quantify over all CIGARs,
+    which contains the property's quantifier (nine operations plus B).
+    Go [int] is unbounded [Z]. *)
 From Coq Require Import ZArith List Bool.
 From Hts Require Import Base.Prim Base.BinArith Generated
   Model.SamSpecArith Model.Cigar Model.Bins
@@ -99,14 +101,37 @@ Theorem bin_fits_uint16 :
 Proof. exact spec_reg2bin_range. Qed.
 Print Assumptions bin_fits_uint16.
 
-(** Scope: an operation code 11..15 is outside the consume table; Lengths and
-    (for a mapped read) End panic, IsValid panics when it is the first operation. *)
-Theorem unknown_op_panics :
-  forall flags pos c, Exists (fun w => 11 <= spec_op_code w) c ->
-    (exists k, cigar_lengths c = Panic k) /\
-    (spec_unmapped flags = false -> exists k, record_end flags pos c = Panic k).
-Proof. exact unknown_op_panics_gen. Qed.
-Print Assumptions unknown_op_panics.
+(** Operation codes 10..15 (not operations of SAMv1): since the library's
+    Consumes clamps them to the empty lastCigar row they consume nothing, no
+    type byte makes Consumes panic, and every uint32 word decodes ... *)
+Theorem undefined_op_consumes_nothing :
+  forall k, 10 <= k <= 15 -> consumes k = Ok (0, 0).
+Proof. exact undefined_op_consumes_nothing_gen. Qed.
+Print Assumptions undefined_op_consumes_nothing.
+
+Theorem consumes_never_panics :
+  forall k, 0 <= k -> exists q r, consumes k = Ok (q, r).
+Proof. exact consumes_total. Qed.
+Print Assumptions consumes_never_panics.
+
+Theorem every_cigar_decodes :
+  forall c, exists sc, spec_decode c = Some sc.
+Proof. exact decode_total. Qed.
+Print Assumptions every_cigar_decodes.
+
+(** ... so the hypothesis [spec_decode c = Some sc] of the theorems above holds
+    for EVERY list of words: End, Len, Lengths, IsValid (and Bin for pos >= -1)
+    return the specified values, and never panic, for every record. *)
+Theorem record_arith_total :
+  forall flags pos c seqlen,
+    exists sc, spec_decode c = Some sc /\
+      record_end flags pos c = Ok (spec_end flags pos sc) /\
+      record_len flags pos c = Ok (spec_len flags pos sc) /\
+      cigar_lengths c = Ok (spec_reflen sc, spec_querylen sc) /\
+      cigar_isvalid c seqlen = Ok (spec_valid sc seqlen) /\
+      (-1 <= pos < 2 ^ 31 -> record_bin flags pos c = Ok (spec_bin flags pos sc)).
+Proof. exact record_arith_total_gen. Qed.
+Print Assumptions record_arith_total.
 
 (** BinFor is the reg2bin of SAMv1 5.3 (also for the unplaced position -1). *)
 Theorem binfor_is_spec :
@@ -265,7 +290,9 @@ Example ex_record :
   /\ cigar_isvalid c 35 = Ok true /\ cigar_isvalid c 34 = Ok false
   /\ record_bin 12 100000 c = Ok 4687 /\ record_bin 12 (-1) [] = Ok 4680
   /\ record_end 0 10 [160; 57; 176] = Ok 28   (* 10M3B11M *)
-  /\ cigar_isvalid [160; 52; 160] 23 = Ok false.
+  /\ cigar_isvalid [160; 52; 160] 23 = Ok false
+  /\ record_end 0 10 [160; 173; 80] = Ok 25      (* 10M 10<code 13> 5M: the undefined code moves nothing *)
+  /\ cigar_lengths [160; 173; 80] = Ok (15, 15).
 Proof. vm_compute. repeat split; reflexivity. Qed.
 
 Example ex_bins :
